@@ -22,11 +22,14 @@ pub struct Ref<'a> {
     pub max_ext_ply: i32,
     /// measuring aid only: nodes with less remaining depth than this are not put on the repetition record
     pub record_min_depth: u8,
+    /// measuring aid only: "delta pruning" in the capture search (a node whose static value plus this margin
+    /// stays below alpha is not searched)
+    pub qdelta: Option<i32>,
 }
 
 impl<'a> Ref<'a> {
     pub fn new(h: &'a ZobristHasher, cap: u64) -> Ref<'a> {
-        Ref { h, nodes: 0, cap, capped: false, qcap: u32::MAX, max_qply: 0, xcap: i32::MAX, max_ext_ply: 0, record_min_depth: 0 }
+        Ref { h, nodes: 0, cap, capped: false, qcap: u32::MAX, max_qply: 0, xcap: i32::MAX, max_ext_ply: 0, record_min_depth: 0, qdelta: None }
     }
 
     fn quiesce(&mut self, board: &BoardState) -> i32 {
@@ -117,6 +120,11 @@ impl<'a> Ref<'a> {
         }
         if qply >= self.qcap {
             return best;
+        }
+        if let Some(d) = self.qdelta {
+            if best + d < alpha {
+                return alpha;
+            }
         }
         // ordering (captures of the most valuable piece first) changes the work, never the value
         let mut caps = generate_moves(board, MoveGenerationMode::CapturesOnly, self.h);
